@@ -69,6 +69,11 @@ def gen_cases(tier, seed):
         i += 1
         yield {'family': fmt, 'sizes': [40, 3], 'format': fmt, 'pretty': True, 'idx': i, 'seed': seed, 'tier': tier,
                'swallowed_failure': True}
+    # the dumped package is itself a loaded dump (its descriptor already carries bytes / hash / count_of_rows)
+    for fmt in ('csv', 'json'):
+        i += 1
+        yield {'family': fmt, 'sizes': [4, 2], 'format': fmt, 'pretty': True, 'idx': i, 'seed': seed, 'tier': tier,
+               'redump': True}
     # add_filehash_to_path (with and without the resource-hash counter): the listed path must be the written one
     for fmt in ('csv', 'json'):
         for nohash in (False, True):
@@ -99,8 +104,17 @@ def run_case(case):
             seen.add(mech)
             viol.append({'kind': kind, 'mech': mech, 'msg': '%r: %s' % (cfg, msg), 'config': cfg})
 
+    if case.get('redump'):
+        # written once, up front (json, so that the re-dump differs in size from what the loaded descriptor records)
+        with boot.quiet():
+            d.Flow(*[lab.source('res%d' % i, F, t) for i, t in enumerate(tables)],
+                   d.dump_to_path('prev', format='json' if case['format'] == 'csv' else 'csv')).process()
+    cfg['source_is_a_loaded_dump'] = bool(case.get('redump'))
+
     def run_dump(out):
         steps = [lab.source('res%d' % i, F, t) for i, t in enumerate(tables)]
+        if case.get('redump'):
+            steps = [d.load('prev/datapackage.json')]
         if case.get('paths'):
             steps = [lab.source(nm, F, t) for (nm, _), t in zip(case['paths'], tables)] + \
                 [d.update_resource(nm, path=pth) for nm, pth in case['paths']]
